@@ -470,6 +470,44 @@ type oracleFailure struct {
 	Profile  string `json:"profile"`
 }
 
+// continuesAfterSkip: index of the first draw / action / invariant / failure event after a Skip called at the
+// top level of the test case (depth 0: not inside a Custom body, not inside an action), or -1
+func continuesAfterSkip(events []string) int {
+	depth, inAct, skipped := 0, 0, false
+	for k, e := range events {
+		switch {
+		case e == "UCustomBegin":
+			depth++
+		case strings.HasPrefix(e, "(UCustomEnd"):
+			depth--
+		case strings.HasPrefix(e, "(UAct "):
+			if skipped {
+				return k
+			}
+			inAct++
+		case strings.HasPrefix(e, "(UActEnd"):
+			inAct--
+		case strings.HasPrefix(e, "(USkip") && depth == 0 && inAct == 0:
+			skipped = true
+		case skipped && (strings.HasPrefix(e, "(UDraw") || e == "UChk" || strings.HasPrefix(e, "(USignal")) && !inCleanup(events, k):
+			return k
+		}
+	}
+	return -1
+}
+
+// inCleanup: event k lies inside a cleanup function (cleanups legitimately run after a skip)
+func inCleanup(events []string, k int) bool {
+	n := 0
+	for _, e := range events[:k] {
+		switch {
+		case strings.HasPrefix(e, "(URun") || e == "UCleanupBegin":
+			n++
+		}
+	}
+	return n > 0
+}
+
 func hasSignal(r *Run) bool {
 	for _, e := range r.Events {
 		if strings.HasPrefix(e, "(USignal") {
@@ -585,6 +623,15 @@ func cmdCheckOracle(args []string) {
 			// C09: FailNow iff failed; verdict/ counts
 			if o.Failed != o.FailNow {
 				add("C09", "TB failed but FailNow not called (or vice versa)", p, checks, base, sh, "", i)
+			}
+			// a test case that called Skip itself (outside Custom bodies and actions, where a skip only rejects an
+			// attempt) ends there: nothing of it runs afterwards and it is not counted as valid
+			for j, rr := range o.Runs {
+				if k := continuesAfterSkip(rr.Events); k >= 0 {
+					add("C09", "a test case went on after it had skipped itself (a skipped case counted as run)", p, checks, base, sh,
+						fmt.Sprintf("invocation %d: event %d %s follows the skip; events %s", j, k, rr.Events[k], runEndedHow(rr)), i)
+					break
+				}
 			}
 			anySignal := false
 			firstSignal := -1
